@@ -105,14 +105,14 @@ pub fn run(ctx: &Ctx) -> usize {
       }
       1 => {
         // last / first days of months
-        let j = rng.range(1721424 + 500, 5369000);
+        let j = crate::windows::sample_day(&mut rng, 1721424 + 500, 5369000);
         match catch(|| JulianDay::from_julian_day(j as f64 - 0.5).get_solar_day()) {
           Some(d) => (j - d.get_day() as i64 + *rng.pick(&[0i64, 1]), *rng.pick(&[0i64, 86399, 43200, 82800, 3599])),
           None => continue,
         }
       }
       2 => (rng.range(2295000, 2299400), rng.range(0, 86399)), // 1571..1583: limits that end around October 1582
-      _ => (rng.range(1721424 + 500, 5369000), rng.range(0, 86399)),
+      _ => (crate::windows::sample_day(&mut rng, 1721424 + 500, 5369000), rng.range(0, 86399)),
     };
     if k % 6 == 0 {
       // both sides of the same Jie back to back (after it, then before it): the governing Jie must not stick
